@@ -29,6 +29,10 @@ type c01Case struct {
 	X     vfB    `json:"x"`
 	Limit uint32 `json:"limit"`
 	File  bool   `json:"file"`
+	// Prime: a reader detection under PrevLimit runs immediately before (a two-step history in
+	// one self-contained case: whatever per-call state survives a call meets a different limit)
+	Prime     bool   `json:"prime,omitempty"`
+	PrevLimit uint32 `json:"prev_limit,omitempty"`
 }
 
 const c01MaxReaderLimit = 16 << 20
@@ -63,8 +67,16 @@ func c01Check(c c01Case) vfResult {
 			return r
 		}
 	}
-	SetLimit(c.Limit)
 	defer SetLimit(defaultLimit)
+	if c.Prime && (c.PrevLimit == 0 || c.PrevLimit <= c01MaxReaderLimit) {
+		SetLimit(c.PrevLimit)
+		if pm, err := DetectReader(bytes.NewReader(xe[:min(len(xe), 96)])); pm == nil || err != nil {
+			r.Err = fmt.Errorf("priming DetectReader under limit %d returned (%v, %v)", c.PrevLimit, pm, err)
+			return r
+		}
+		r.Labels = append(r.Labels, "primed")
+	}
+	SetLimit(c.Limit)
 	m := Detect(xe)
 	if m == nil {
 		r.Err = fmt.Errorf("Detect returned nil")
@@ -118,7 +130,12 @@ func c01Gen(t *rapid.T) c01Case {
 	default:
 		x = vfGenAnyInput(t)
 	}
-	return c01Case{X: x, Limit: vfGenLimit(t, len(x)), File: rapid.IntRange(0, 15).Draw(t, "file") == 0}
+	c := c01Case{X: x, Limit: vfGenLimit(t, len(x)), File: rapid.IntRange(0, 15).Draw(t, "file") == 0}
+	if rapid.Bool().Draw(t, "prime") {
+		c.Prime = true
+		c.PrevLimit = rapid.SampledFrom([]uint32{0, 1, 2, 16, 64, 512, 3072, 4096, 1 << 16, 1 << 20}).Draw(t, "prevlimit")
+	}
+	return c
 }
 
 // c01Structured builds headers for the detectors that read attacker-controlled lengths.
@@ -210,6 +227,7 @@ func c01Prefixes(t *testing.T) {
 			x := s.Data[:n]
 			for _, lim := range []uint32{0, uint32(n), uint32(n + 1), 3072, 0xffffffff} {
 				c := c01Case{X: x, Limit: lim}
+				vfHistPush("gen", c)
 				r := func() (r vfResult) {
 					defer func() {
 						if p := recover(); p != nil {
